@@ -2468,10 +2468,11 @@ class Wallet(object):
             for lvl in fullpath[n_items:]:
                 ck = ck.subkey_for_path(lvl, network=network)
                 newpath += '/' + lvl
-                if not account_id:
-                    account_id = 0 if ("account'" not in self.key_path or
-                                       self.key_path.index("account'") >= len(fullpath)) \
-                        else int(fullpath[self.key_path.index("account'")][:-1])
+                if "account'" in self.key_path and self.key_path.index("account'") < len(fullpath):
+                    # The account level of the path names the account of the key
+                    account_id = int(fullpath[self.key_path.index("account'")][:-1])
+                elif not account_id:
+                    account_id = 0
                 change_pos = [self.key_path.index(chg) for chg in ["change", "change'"] if chg in self.key_path]
                 change = None if not change_pos or change_pos[0] >= len(fullpath) else (
                     int(fullpath[change_pos[0]].strip("'")))
